@@ -129,7 +129,7 @@ Definition mo (st : ast) (sel : pod -> bool) (p : pod) : Z :=
   countb (fun v => sel v && migrating st v && negb (p_id v =? p_id p)) (a_pods st).
 Definition uo (st : ast) (sel : pod -> bool) (p : pod) : Z :=
   countb (fun v => sel v && p_exists v
-                   && (negb (p_ready v) || (has_job true st v && negb (p_id v =? p_id p))))
+                   && (negb (p_avail v) || (has_job true st v && negb (p_id v =? p_id p))))
          (a_pods st).
 
 Lemma mo_le st sel p : mo st sel p <= measure st sel.
@@ -284,11 +284,11 @@ Qed.
 
 Lemma uo_filter st p :
   uo st (sel_wl (p_ns p) (p_wl p)) p
-  = countb (fun v => p_exists v && same_wl p v && (negb (p_ready v) || other_pod true st p v))
+  = countb (fun v => p_exists v && same_wl p v && (negb (p_avail v) || other_pod true st p v))
            (a_pods st).
 Proof.
   apply countb_ext. intros v _. unfold other_pod, same_wl, sel_wl.
-  destruct ((p_ns v =? p_ns p) && (p_wl v =? p_wl p)), (p_exists v), (p_ready v),
+  destruct ((p_ns v =? p_ns p) && (p_wl v =? p_wl p)), (p_exists v), (p_avail v),
     (has_job true st v), (p_id v =? p_id p); reflexivity.
 Qed.
 
@@ -408,7 +408,7 @@ Section Step.
     change (countb (fun v => other_pod true st p v && sel_wl (p_ns p) (p_wl p) v) (a_pods st)) with mig.
     assert (Hun : 1 <= max_un c st (p_wl p)).
     { pose proof (countb_nonneg (fun v => p_exists v && same_wl p v
-         && (negb (p_ready v) || other_pod true st p v)) (a_pods st)). lia. }
+         && (negb (p_avail v) || other_pod true st p v)) (a_pods st)). lia. }
     split; [|lia].
     apply andb_false_iff in Emig. destruct Emig as [E|E].
     - apply Z.ltb_ge in E. pose proof (countb_nonneg (fun v => other_pod true st p v && same_wl p v) (a_pods st)).
